@@ -216,7 +216,8 @@ class MinPathCoverCycles(walkmodel.AbstractWalkModelDiGraph):
     def get_lowerbound_k(self):
 
         if self._lowerbound_k is None:
-            stG = stdigraph.stDiGraph(self.G)
-            self._lowerbound_k = stG.get_width(edges_to_ignore=self.edges_to_ignore)
+            stG = stdigraph.stDiGraph(self.G, additional_starts=self.additional_starts, additional_ends=self.additional_ends)
+            # As in the k-models, the synthetic source/sink edges must not count towards the width
+            self._lowerbound_k = stG.get_width(edges_to_ignore=list(stG.source_sink_edges) + list(self.edges_to_ignore))
 
         return self._lowerbound_k
